@@ -42,7 +42,7 @@ DecideUserinfo(a) ==
 
 DecideIntrospect(a) ==
   LET p == <<a.b, a.rp>> IN
-  IF Live(p) /\ Confidential(a.rp) THEN [class |-> "active", sub |-> sess[p].sub]
+  IF Live(p) /\ Confidential(a.rp) /\ InOwnAudience(a.rp) THEN [class |-> "active", sub |-> sess[p].sub]
   ELSE [class |-> IF Confidential(a.rp) THEN "inactive" ELSE "error", sub |-> "none"]
 
 DecideRefresh(a) ==
